@@ -242,11 +242,13 @@ def range_frame_ok(sort, fr):
 
 
 def range_invalid(sort, fr):
-    """F56: a range frame with a numeric offset over several sort keys or none: compiles, no engine accepts the SQL"""
+    """a range frame with a numeric offset over several sort keys or none: rejected by translate_windowed (91a6a23; F56) --
+    when a function that takes a frame clause uses it"""
     return fr[0] == "range" and not offset_free(fr) and not empty_range(fr) and len(SORTS[sort]) != 1
 
 
-RANGE_OFFSET_MSG = "RANGE with offset PRECEDING/FOLLOWING requires one ORDER BY expression"
+RANGE_OFFSET_MSG = "RANGE with offset PRECEDING/FOLLOWING requires one ORDER BY expression"      # what SQLite said before 91a6a23
+RANGE_KEYS_MSG = "window: a `range` with an offset needs exactly one sort key"                   # what the compiler says now
 
 
 def win_ctor(fr, sort, by=None):
